@@ -3,6 +3,7 @@
 package c05
 
 import (
+	"runtime"
 	"fmt"
 	"hash/fnv"
 	"os"
@@ -74,7 +75,31 @@ func (m *monitors) fail(sig, detail string) {
 	if len(tr) > 120 {
 		tr = tr[len(tr)-120:]
 	}
-	m.rec.Violation(sig, m.desc+": "+detail, map[string]interface{}{"desc": m.desc, "seed": m.rec.Seed(), "detail": detail, "event_tail": tr})
+	replay := map[string]interface{}{"desc": m.desc, "seed": m.rec.Seed(), "detail": detail, "event_tail": tr}
+	if strings.HasPrefix(sig, "M7:") {
+		replay["ready_loop_goroutines"] = readyLoopStacks()
+	}
+	m.rec.Violation(sig, m.desc+": "+detail, replay)
+}
+
+// readyLoopStacks returns the stacks of the goroutines that are inside a raft ready-loop or an apply callback
+// (what a replica that does not move is doing).
+func readyLoopStacks() []string {
+	buf := make([]byte, 8<<20)
+	buf = buf[:runtime.Stack(buf, true)]
+	var out []string
+	for _, g := range strings.Split(string(buf), "\n\n") {
+		if strings.Contains(g, "raft.(*RaftGroup).run") || strings.Contains(g, "etcd/raft.(*node).run") {
+			if len(g) > 3000 {
+				g = g[:3000]
+			}
+			out = append(out, g)
+		}
+	}
+	if len(out) > 60 {
+		out = out[:60]
+	}
+	return out
 }
 
 func digest(e *raftpb.Entry) uint64 {
@@ -106,6 +131,18 @@ func scenario(rec *mon.Recorder, c int) {
 	}
 	noiseSeed := uint64(rng.Int63())
 	var noiseCtr uint64
+	var slowNode uint64 // id of a node whose ready-loop is held up at every Ready (0 = none)
+	if c%2 == 1 {
+		// a slow disk in every second scenario: one durable write in eight takes 1-15 ms
+		var dctr uint64
+		cl.SaveDelay = func(n *sim.Node, g uuid.UUID) time.Duration {
+			h := (atomic.AddUint64(&dctr, 1)*0xbf58476d1ce4e5b9 ^ noiseSeed) >> 33
+			if h%8 == 0 {
+				return time.Duration(1+h%15) * time.Millisecond
+			}
+			return 0
+		}
+	}
 	// ---- monitors -----------------------------------------------------------
 	cl.OnEvent = func(n *sim.Node, g uuid.UUID, point string, args ...interface{}) {
 		key := fmt.Sprintf("%d/%s/%d", n.Id, g, n.Incarnation)
@@ -117,6 +154,9 @@ func scenario(rec *mon.Recorder, c int) {
 			h := (atomic.AddUint64(&noiseCtr, 1)*0x9e3779b97f4a7c15 ^ noiseSeed) >> 40
 			if h%16 == 0 {
 				time.Sleep(time.Duration(h%12) * time.Millisecond)
+			}
+			if point == "ready" && atomic.LoadUint64(&slowNode) == n.Id {
+				time.Sleep(40 * time.Millisecond)
 			}
 		case "run.start":
 			m.mu.Lock()
@@ -403,6 +443,44 @@ func scenario(rec *mon.Recorder, c int) {
 			}
 		}
 		cl.Net.Heal()
+	}
+	// ---- a follower that was cut off catches up through the leader's snapshot while its ready-loop is slow: the
+	// snapshot, the appends behind it and the commit index that covers them pile up into one Ready
+	if nodes >= 3 && !m.failed && c%2 == 0 {
+		var live []int
+		for i, n := range cl.Nodes {
+			if !n.Dead() {
+				live = append(live, i)
+			}
+		}
+		if len(live) == nodes {
+			f := live[rng.Intn(len(live))]
+			var rest []int
+			for _, i := range live {
+				if i != f {
+					rest = append(rest, i)
+				}
+			}
+			cl.Net.SetPolicy(sim.Policy{})
+			cl.Net.Partition(ids([]int{f}), ids(rest), false)
+			time.Sleep(250 * time.Millisecond)
+			for _, i := range rest {
+				for _, g := range append([]uuid.UUID{uuid.Nil}, pids...) {
+					cl.TriggerSnapshot(cl.Nodes[i], g, 0)
+				}
+			}
+			time.Sleep(120 * time.Millisecond)
+			atomic.StoreUint64(&slowNode, cl.Nodes[f].Id)
+			cl.Net.Heal()
+			time.Sleep(700 * time.Millisecond)
+			atomic.StoreUint64(&slowNode, 0)
+			step := fmt.Sprintf("n%d cut off, the others compact, n%d returns with a slow ready-loop", f+1, f+1)
+			script = append(script, step)
+			m.mu.Lock()
+			m.note("---- " + step)
+			m.mu.Unlock()
+			rec.Count("forced_catch_up_by_snapshot_phases", 1)
+		}
 	}
 	// ---- faults stop: heal, restart, converge --------------------------------
 	cl.Net.SetPolicy(sim.Policy{})
